@@ -92,6 +92,9 @@ impl Property for C13 {
     fn domain_off(&self) -> Vec<&'static str> {
         vec!["item_first_list", "item_first_heading", "empty_item", "html_block", "refdef", "link_title", "inline_html", "escape"]
     }
+    fn max_shrink_iters(&self) -> u32 {
+        600
+    }
     fn cases(&self, tier: Tier) -> u64 {
         match tier {
             Tier::Quick => 2500,
